@@ -198,6 +198,28 @@ def binop(interp, op, a, b, st, node):
     if b.kind == "maybe":
         b = b.items[0]
     labels = a.labels | b.labels
+    if name in ("add", "sub", "mul", "div", "pow", "mod", "floordiv") and (a.kind == "arr" or b.kind == "arr") and hasattr(interp, "vtab"):
+        # elementwise operations commute with merging the two leading axes of an operand when the
+        # other operand only broadcasts along the trailing axes (or is merged in the same way)
+        sa_ = merged_leading(interp, a) if a.kind == "arr" else None
+        sb_ = merged_leading(interp, b) if b.kind == "arr" else None
+
+        def small(v, ref):
+            sv = shape_of(v)
+            return sv is not None and (len(sv) == 0 or (len(sv) == 1 and len(ref.shape) >= 2 and sv[0] == ref.shape[-1]))
+
+        pair = None
+        if sa_ is not None and sb_ is not None and tuple(sa_.shape) == tuple(sb_.shape):
+            pair = (sa_, sb_, a)
+        elif sa_ is not None and sb_ is None and small(b, a):
+            pair = (sa_, b, a)
+        elif sb_ is not None and sa_ is None and small(a, b):
+            pair = (a, sb_, b)
+        if pair is not None:
+            inner = binop(interp, op, pair[0], pair[1], st, node)
+            if inner.kind == "arr" and inner.shape is not None:
+                interp.vtab.setdefault(inner.term, inner)
+                return reshape_to(interp, inner, [int_of_dim(d) for d in pair[2].shape], st, node)
     # python sequences
     if name == "add" and a.kind in ("list", "tuple") and b.kind == a.kind:
         if a.items is not None and b.items is not None:
